@@ -1,5 +1,483 @@
 package cpumem
 
-func newHistHandler(e *plugEnv) func([]byte) map[string]any {
-	return func(raw []byte) map[string]any { return map[string]any{"ev": "Crash", "kind": "unimplemented"} }
+// History driver: sequences of alloc / rollback-alloc / realloc / rollback-realloc / release /
+// remap / fix committed through the real resource manager (cobalt.Manager) with the real cpumem
+// plugin.  After every operation the plugin's own view of the node (GetNodeResourceInfo) and the
+// harness's list of live workloads (with the resources the manager returned for them) are logged.
+
+import (
+	"context"
+	"encoding/json"
+	"fmt"
+	"math/rand"
+	"sort"
+	"sync"
+	"sync/atomic"
+	"testing"
+	"time"
+
+	"github.com/projecteru2/core/resource/cobalt"
+	"github.com/projecteru2/core/resource/plugins"
+	resourcetypes "github.com/projecteru2/core/resource/types"
+	coretypes "github.com/projecteru2/core/types"
+	"verif/harness/vt"
+)
+
+type histOp struct {
+	Op   string `json:"op"`   // alloc | rbAlloc | realloc | rbRealloc | release | remap | drift | fix
+	Kind string `json:"kind"` // request kind (alloc/realloc) or drift kind
+	K    int    `json:"k"`    // instances (alloc)
+	W    int    `json:"w"`    // workload slot (1-based index into the live list, modulo its length)
+}
+
+type histIn struct {
+	Node nodeSt   `json:"node"`
+	Ops  []histOp `json:"ops"`
+	Run  int      `json:"run"`
+}
+
+type liveW struct {
+	id  string
+	res resourcetypes.Resources
+}
+
+type mgrEnv struct {
+	mgrs map[[2]int]*cobalt.Manager
+	t    *testing.T
+}
+
+func (e *mgrEnv) mgr(B, ms int) *cobalt.Manager {
+	k := [2]int{B, ms}
+	if m, ok := e.mgrs[k]; ok {
+		return m
+	}
+	cfg := coretypes.Config{
+		GlobalTimeout: 30 * time.Second,
+		Etcd:          coretypes.EtcdConfig{Prefix: "/cpumem"},
+		Scheduler:     coretypes.SchedulerConfig{MaxShare: ms, ShareBase: B},
+	}
+	m, err := cobalt.New(cfg)
+	if err != nil {
+		panic(err)
+	}
+	if err := m.LoadPlugins(context.Background(), e.t); err != nil {
+		panic(err)
+	}
+	e.mgrs[k] = m
+	return m
+}
+
+// request kinds: cpu in pieces of 1/B (B must be even), memory units
+func allocOpts(kind string, B int) resourcetypes.Resources {
+	var bind bool
+	var cpu float64
+	var mem int64
+	switch kind {
+	case "b10":
+		bind, cpu, mem = true, 1.0, 1
+	case "b05":
+		bind, cpu, mem = true, 0.5, 1
+	case "b15":
+		bind, cpu, mem = true, 1.5, 1
+	case "b20":
+		bind, cpu, mem = true, 2.0, 0
+	case "u05":
+		bind, cpu, mem = false, 0.5, 1
+	case "u00":
+		bind, cpu, mem = false, 0, 2
+	default:
+		panic("alloc kind " + kind)
+	}
+	return resourcetypes.Resources{"cpumem": resourcetypes.RawParams{"cpu-bind": bind, "cpu-request": cpu, "cpu-limit": cpu, "memory-request": mem, "memory-limit": mem}}
+}
+
+func reallocOpts(kind string) resourcetypes.Resources {
+	p := resourcetypes.RawParams{"keep-cpu-bind": true, "cpu-request": 0.0, "cpu-limit": 0.0, "memory-request": int64(0), "memory-limit": int64(0)}
+	switch kind {
+	case "cpu+": // grow by half a core, keep binding
+		p["cpu-request"], p["cpu-limit"] = 0.5, 0.5
+	case "cpu-":
+		p["cpu-request"], p["cpu-limit"] = -0.5, -0.5
+	case "mem+":
+		p["memory-request"], p["memory-limit"] = int64(1), int64(1)
+	case "mem-":
+		p["memory-request"], p["memory-limit"] = int64(-1), int64(-1)
+	case "keep": // nothing changes
+	case "unbind":
+		p["keep-cpu-bind"], p["cpu-bind"] = false, false
+	case "bind":
+		p["keep-cpu-bind"], p["cpu-bind"] = false, true
+	default:
+		panic("realloc kind " + kind)
+	}
+	return resourcetypes.Resources{"cpumem": p}
+}
+
+func (e *mgrEnv) history(in *histIn) []map[string]any {
+	ctx := context.Background()
+	nd := &in.Node
+	m := e.mgr(nd.B, nd.MS)
+	p := m.GetPlugins()[0]
+	node := "h"
+	ncore, nnuma := len(nd.Cap), len(nd.NumaMem)
+	evs := []map[string]any{}
+	if _, err := p.SetNodeResourceInfo(ctx, node, nd.rawCapacity(), nd.rawUsage()); err != nil {
+		return []map[string]any{{"ev": "BadInput", "err": err.Error()}}
+	}
+	evs = append(evs, map[string]any{"ev": "HistStart", "run": in.Run, "node": nd})
+	live := []*liveW{}
+	seq := 0
+	type undo struct {
+		kind  string // alloc | realloc
+		ws    []resourcetypes.Resources
+		ids   []string
+		w     *liveW
+		old   resourcetypes.Resources
+		delta resourcetypes.Resources
+	}
+	var last *undo
+	workloads := func() []*coretypes.Workload {
+		ws := []*coretypes.Workload{}
+		for _, l := range live {
+			ws = append(ws, &coretypes.Workload{ID: l.id, Resources: l.res})
+		}
+		return ws
+	}
+	for _, op := range in.Ops {
+		ev := map[string]any{"ev": "HistOp", "run": in.Run, "op": op.Op, "kind": op.Kind, "k": op.K, "class": "skip", "w": "", "remap": []any{}, "before": map[string]any{}, "after": map[string]any{}}
+		pick := func() *liveW {
+			if len(live) == 0 {
+				return nil
+			}
+			return live[(op.W-1+len(live))%len(live)]
+		}
+		switch op.Op {
+		case "alloc":
+			ws, _, err := m.Alloc(ctx, node, op.K, allocOpts(op.Kind, nd.B))
+			ev["class"] = classOf(err)
+			last = nil
+			if err == nil {
+				u := &undo{kind: "alloc", ws: ws}
+				for _, r := range ws {
+					seq++
+					id := fmt.Sprintf("w%d", seq)
+					live = append(live, &liveW{id: id, res: r})
+					u.ids = append(u.ids, id)
+				}
+				last = u
+			}
+		case "rbAlloc":
+			if last == nil || last.kind != "alloc" {
+				break
+			}
+			err := m.RollbackAlloc(ctx, node, last.ws)
+			ev["class"] = classOf(err)
+			if err == nil {
+				keep := live[:0]
+				for _, l := range live {
+					gone := false
+					for _, id := range last.ids {
+						if id == l.id {
+							gone = true
+						}
+					}
+					if !gone {
+						keep = append(keep, l)
+					}
+				}
+				live = keep
+			}
+			last = nil
+		case "realloc":
+			w := pick()
+			last = nil
+			if w == nil {
+				break
+			}
+			ev["w"] = w.id
+			ev["before"] = projectWorkload(w.res["cpumem"], ncore, nnuma)
+			_, delta, res, err := m.Realloc(ctx, node, w.res, reallocOpts(op.Kind))
+			ev["class"] = classOf(err)
+			if err == nil {
+				last = &undo{kind: "realloc", w: w, old: w.res, delta: delta}
+				w.res = res
+				ev["after"] = projectWorkload(w.res["cpumem"], ncore, nnuma)
+			}
+		case "rbRealloc":
+			if last == nil || last.kind != "realloc" {
+				break
+			}
+			err := m.RollbackRealloc(ctx, node, last.delta)
+			ev["class"] = classOf(err)
+			ev["w"] = last.w.id
+			if err == nil {
+				last.w.res = last.old
+			}
+			last = nil
+		case "release":
+			w := pick()
+			last = nil
+			if w == nil {
+				break
+			}
+			ev["w"] = w.id
+			_, _, err := m.SetNodeResourceUsage(ctx, node, nil, nil, []resourcetypes.Resources{w.res}, true, plugins.Decr)
+			ev["class"] = classOf(err)
+			if err == nil {
+				keep := live[:0]
+				for _, l := range live {
+					if l != w {
+						keep = append(keep, l)
+					}
+				}
+				live = keep
+			}
+		case "remap":
+			rm, err := m.Remap(ctx, node, workloads())
+			ev["class"] = classOf(err)
+			if err == nil {
+				ids := []string{}
+				for id := range rm {
+					ids = append(ids, id)
+				}
+				sort.Strings(ids)
+				out := []any{}
+				for _, id := range ids {
+					ep := rm[id]["cpumem"]
+					cm := map[string]int{}
+					if raw, ok := ep["cpu_map"]; ok {
+						b, _ := json.Marshal(raw)
+						json.Unmarshal(b, &cm)
+					}
+					arr, extra := cpuArr(cm, ncore)
+					remapFlag, _ := ep["remap"].(bool)
+					out = append(out, map[string]any{"id": id, "cpus": arr, "extra": extra, "remap": remapFlag})
+				}
+				ev["remap"] = out
+			}
+		case "drift", "fix":
+			// handled by the fix driver (C15); not part of bookkeeping histories
+		}
+		// observation: the plugin's view and the live workloads
+		lw := []any{}
+		for _, l := range live {
+			pw := projectWorkload(l.res["cpumem"], ncore, nnuma)
+			pw["id"] = l.id
+			lw = append(lw, pw)
+		}
+		ev["live"] = lw
+		capn, usage, diffs, err := m.GetNodeResourceInfo(ctx, node, workloads(), false)
+		if err != nil {
+			ev["usage"] = projectUsage(nil, ncore, nnuma)
+			ev["diffs"] = -1
+		} else {
+			ev["usage"] = projectUsage(usage["cpumem"], ncore, nnuma)
+			ev["diffs"] = len(diffs)
+			_ = capn
+		}
+		evs = append(evs, ev)
+	}
+	return evs
+}
+
+// ---- fix (C15): write a drifted node, record workloads, run the node resource repair ----
+type fixIn struct {
+	Node  nodeSt   `json:"node"`  // node whose `used`/`memUsed`/`numaMemUsed` are the DRIFTED values
+	Kinds []string `json:"kinds"` // workloads actually recorded: alloc kinds placed by the real allocator on an empty node
+	Run   int      `json:"run"`
+}
+
+func (e *mgrEnv) fixCase(in *fixIn) []map[string]any {
+	ctx := context.Background()
+	nd := in.Node
+	m := e.mgr(nd.B, nd.MS)
+	p := m.GetPlugins()[0]
+	node := "f"
+	ncore, nnuma := len(nd.Cap), len(nd.NumaMem)
+	// 1. place the workloads on an EMPTY copy of the node with the real allocator
+	empty := nd
+	empty.Used = make([]int, ncore)
+	empty.MemUsed = 0
+	empty.NumaMemUsed = make([]int64, nnuma)
+	if _, err := p.SetNodeResourceInfo(ctx, node, empty.rawCapacity(), empty.rawUsage()); err != nil {
+		return []map[string]any{{"ev": "BadInput", "err": err.Error()}}
+	}
+	ws := []*coretypes.Workload{}
+	lw := []any{}
+	for i, k := range in.Kinds {
+		r, _, err := m.Alloc(ctx, node, 1, allocOpts(k, nd.B))
+		if err != nil {
+			continue
+		}
+		id := fmt.Sprintf("f%d", i)
+		ws = append(ws, &coretypes.Workload{ID: id, Resources: r[0]})
+		pw := projectWorkload(r[0]["cpumem"], ncore, nnuma)
+		pw["id"] = id
+		lw = append(lw, pw)
+	}
+	// 2. overwrite usage with the drifted one
+	if _, err := p.SetNodeResourceInfo(ctx, node, nd.rawCapacity(), nd.rawUsage()); err != nil {
+		return []map[string]any{{"ev": "BadInput", "err": err.Error()}}
+	}
+	ev := map[string]any{"ev": "FixCase", "run": in.Run, "node": nd, "live": lw}
+	_, _, d0, err := m.GetNodeResourceInfo(ctx, node, ws, false)
+	ev["diffsBefore"] = len(d0)
+	ev["class0"] = classOf(err)
+	_, u1, d1, err := m.GetNodeResourceInfo(ctx, node, ws, true)
+	ev["classFix"] = classOf(err)
+	ev["diffsFix"] = len(d1)
+	ev["usageFix"] = projectUsage(u1["cpumem"], ncore, nnuma)
+	_, u2, d2, err := m.GetNodeResourceInfo(ctx, node, ws, false)
+	ev["classAfter"] = classOf(err)
+	ev["diffsAfter"] = len(d2)
+	ev["usageAfter"] = projectUsage(u2["cpumem"], ncore, nnuma)
+	return []map[string]any{ev}
+}
+
+func newHistHandler(pe *plugEnv) func([]byte) map[string]any {
+	e := &mgrEnv{mgrs: map[[2]int]*cobalt.Manager{}, t: pe.t}
+	e.mgr(2, -1)
+	return func(raw []byte) map[string]any {
+		var req struct {
+			Op   string  `json:"op"`
+			Hist *histIn `json:"hist"`
+			Fix  *fixIn  `json:"fix"`
+		}
+		if err := json.Unmarshal(raw, &req); err != nil {
+			return map[string]any{"ev": "Crash", "kind": "badreq", "msg": err.Error()}
+		}
+		var evs []map[string]any
+		crash := safely(nil, func() map[string]any {
+			if req.Op == "fix" {
+				evs = e.fixCase(req.Fix)
+			} else {
+				evs = e.history(req.Hist)
+			}
+			return nil
+		})
+		if crash != nil {
+			return crash
+		}
+		return map[string]any{"ev": "Batch", "events": evs}
+	}
+}
+
+// hist nodes: B=2 (pieces of half a core), whole-core capacities
+func histNode(kind string) nodeSt {
+	switch kind {
+	case "plain4":
+		return nodeSt{B: 2, MS: -1, Cap: []int{2, 2, 2, 2}, Used: []int{0, 0, 0, 0}, Numa: []int{0, 0, 0, 0}, Mem: 8, NumaMem: []int64{}, NumaMemUsed: []int64{}}
+	case "numa4":
+		return nodeSt{B: 2, MS: -1, Cap: []int{2, 2, 2, 2}, Used: []int{0, 0, 0, 0}, Numa: []int{1, 1, 2, 2}, Mem: 8, NumaMem: []int64{4, 4}, NumaMemUsed: []int64{0, 0}}
+	case "numa6":
+		return nodeSt{B: 2, MS: -1, Cap: []int{2, 2, 2, 2, 2, 2}, Used: []int{0, 0, 0, 0, 0, 0}, Numa: []int{1, 1, 1, 2, 2, 2}, Mem: 10, NumaMem: []int64{5, 5}, NumaMemUsed: []int64{0, 0}}
+	case "share3": // node added with share 4 = two full shares per core
+		return nodeSt{B: 2, MS: 2, Cap: []int{4, 4, 4}, Used: []int{0, 0, 0}, Numa: []int{0, 0, 0}, Mem: 6, NumaMem: []int64{}, NumaMemUsed: []int64{}}
+	case "plain2":
+		return nodeSt{B: 2, MS: -1, Cap: []int{2, 2}, Used: []int{0, 0}, Numa: []int{0, 0}, Mem: 3, NumaMem: []int64{}, NumaMemUsed: []int64{}}
+	}
+	panic("node kind " + kind)
+}
+
+var histNodeKinds = []string{"plain4", "numa4", "numa6", "share3", "plain2"}
+var allocKinds = []string{"b10", "b05", "b15", "b20", "u05", "u00"}
+var reallocKinds = []string{"cpu+", "cpu-", "mem+", "mem-", "keep", "unbind", "bind"}
+
+func randHist(rng *rand.Rand, run int) *histIn {
+	in := &histIn{Node: histNode(histNodeKinds[rng.Intn(len(histNodeKinds))]), Run: run}
+	n := 4 + rng.Intn(12)
+	for i := 0; i < n; i++ {
+		var op histOp
+		switch r := rng.Intn(20); {
+		case r < 6:
+			op = histOp{Op: "alloc", Kind: allocKinds[rng.Intn(len(allocKinds))], K: 1 + rng.Intn(2)}
+		case r < 12:
+			op = histOp{Op: "realloc", Kind: reallocKinds[rng.Intn(len(reallocKinds))], W: 1 + rng.Intn(4)}
+		case r < 14:
+			op = histOp{Op: "release", W: 1 + rng.Intn(4)}
+		case r < 16:
+			op = histOp{Op: "rbAlloc"}
+			if len(in.Ops) > 0 && in.Ops[len(in.Ops)-1].Op == "realloc" {
+				op.Op = "rbRealloc"
+			}
+		default:
+			op = histOp{Op: "remap"}
+		}
+		in.Ops = append(in.Ops, op)
+	}
+	return in
+}
+
+// TestCpuMemHistory replays TLC-generated operation sequences (VERIF_INPUTS: {node, ops}) and
+// seeded random longer ones through cobalt.Manager + cpumem.
+func TestCpuMemHistory(t *testing.T) {
+	out := vt.OpenTrace(t)
+	defer out.Close()
+	par := vt.EnvInt("VERIF_PAR", 8)
+	ch := make(chan map[string]any, 256)
+	var wg sync.WaitGroup
+	var mu sync.Mutex // a history's events must stay contiguous in the trace
+	var n, crashes int64
+	for w := 0; w < par; w++ {
+		wg.Add(1)
+		go func() {
+			defer wg.Done()
+			sup := &supervisor{kind: "hist", deadline: 30 * time.Second}
+			defer sup.close()
+			for req := range ch {
+				ev, fail := sup.run(t, req)
+				mu.Lock()
+				if fail != "" {
+					atomic.AddInt64(&crashes, 1)
+					out.Emit(map[string]any{"ev": "Crash", "kind": fail, "in": req, "msg": ""})
+				} else if ev["ev"] == "Batch" {
+					for _, x := range ev["events"].([]any) {
+						out.Emit(x.(map[string]any))
+					}
+				} else {
+					if ev["ev"] == "Crash" {
+						atomic.AddInt64(&crashes, 1)
+						ev["in"] = req
+					}
+					out.Emit(ev)
+				}
+				mu.Unlock()
+				atomic.AddInt64(&n, 1)
+			}
+		}()
+	}
+	run := 0
+	vt.EachInput(t, func(raw []byte) {
+		var x struct {
+			Node string   `json:"node"`
+			Ops  []histOp `json:"ops"`
+			Fix  *struct {
+				Node  string   `json:"node"`
+				Used  []int    `json:"used"`
+				Mem   int64    `json:"memUsed"`
+				NMem  []int64  `json:"numaMemUsed"`
+				Kinds []string `json:"kinds"`
+			} `json:"fix"`
+		}
+		vt.MustUnmarshal(t, raw, &x)
+		run++
+		if x.Fix != nil {
+			nd := histNode(x.Fix.Node)
+			nd.Used, nd.MemUsed = x.Fix.Used, x.Fix.Mem
+			if len(nd.NumaMem) > 0 {
+				nd.NumaMemUsed = x.Fix.NMem
+			}
+			ch <- map[string]any{"op": "fix", "fix": &fixIn{Node: nd, Kinds: x.Fix.Kinds, Run: run}}
+			return
+		}
+		ch <- map[string]any{"op": "hist", "hist": &histIn{Node: histNode(x.Node), Ops: x.Ops, Run: run}}
+	})
+	rng := rand.New(rand.NewSource(vt.Seed()))
+	for i := 0; i < vt.EnvInt("VERIF_RANDOM", 0); i++ {
+		run++
+		ch <- map[string]any{"op": "hist", "hist": randHist(rng, run)}
+	}
+	close(ch)
+	wg.Wait()
+	t.Logf("cpumem histories: %d, crash events: %d", n, crashes)
 }
